@@ -642,7 +642,7 @@ Proof.
   destruct pr as [[st1 memo1] cached]. cbn [fst] in Hpr. destruct Hpr as [G1 [Q1 Hr1]].
   assert (H1 : CInv W (jr_spec it :: map jr_spec rest ++ map (fun x => jr_spec (vr_item x)) acc ++ E) R st1)
     by (eapply cinv_grows; eassumption).
-  destruct (resolve_version W (jr_req it) versions (versions_by_name (js_pkgs st1) (jr_pkg it)) cached) as [[v yanked]|].
+  destruct (resolve_version W (jr_req it) versions (versions_by_name (js_pkgs st1) (jr_pkg it)) cached (late_of W (jr_pkg it))) as [[v yanked]|].
   - set (st2 := queue_ver W _ (jr_pkg it, v)).
     assert (H2 : CInv W (jr_spec it :: map jr_spec rest ++ map (fun x => jr_spec (vr_item x)) acc ++ E) R st2 /\ js_res st2 = []).
     { unfold st2. match goal with |- context [queue_ver W ?s0 _] => set (st1' := s0) end.
@@ -672,7 +672,7 @@ Proof.
   destruct (pmeta_of W st (jr_pkg it)) as [f|versions]; [apply IH; assumption|].
   destruct (if negb (jo_prefer_cached o) || unification_decides W st (jr_pkg it) (jr_req it)
             then (st, memo, []) else probe W st memo (jr_pkg it) (jr_req it) versions) as [[st1 memo1] cached].
-  destruct (resolve_version W (jr_req it) versions (versions_by_name (js_pkgs st1) (jr_pkg it)) cached) as [[v yanked]|].
+  destruct (resolve_version W (jr_req it) versions (versions_by_name (js_pkgs st1) (jr_pkg it)) cached (late_of W (jr_pkg it))) as [[v yanked]|].
   - apply IH; [exact Hrest|]. apply Forall_app. split; [exact Ha | constructor; [exact Hit | constructor]].
   - destruct (js_busting st1); [apply IH; assumption | exact I].
 Qed.
